@@ -54,7 +54,7 @@ Definition clause_prop (c : clause) : nat :=
 
 (** ** The tracker *)
 Record req := {
-  r_kind : mkind; r_num : nat; r_bad : bool; r_els : list elem; r_nc : nat; r_w : wspec;
+  r_kind : mkind; r_num : nat; r_bad : list bool; r_els : list elem; r_nc : nat; r_w : wspec;
   r_ecb : cbspec; r_ccb : cbspec; r_group : gname;
   r_dead : bool;            (* its group was cancelled *)
   r_started : list nat;     (* element / invocation indices of the workers started so far *)
@@ -154,7 +154,8 @@ Definition live_of_req (k : trk) (r : nat) : nat :=
 
 Definition is_map_kind (m : mkind) : bool := match m with MMap _ => true | _ => false end.
 
-Definition expected_created (x : req) : nat := if r_bad x then 0 else r_num x.
+(** one task per invocation index below [num] whose call does not raise *)
+Definition expected_created (x : req) : nat := ngood (r_bad x) (r_num x).
 
 (** with-setters for [trk] (written out; the record is small enough) *)
 Definition k_with (k : trk) reqs task live exited cancelled cbs ccb ccd ecb target expect raised
@@ -220,7 +221,7 @@ Definition on_event (k : trk) (o : obs) (e : event) : trk * list clause :=
                 | Some e => negb (e_bad e) && Nat.ltb el (r_pulls x)
                 | None => false
                 end
-            | _ => Nat.ltb el (r_num x) && negb (r_bad x)
+            | _ => Nat.ltb el (r_num x) && negb (nth el (r_bad x) false)
             end in
           let in_group :=
             match group_ids o (r_group x) with
@@ -515,7 +516,7 @@ Definition on_label (c : config) (k : trk) (o : obs) : trk * list clause :=
                (fun n => new_req k MApply num bad [] 0 w ecb ccb n)
   | LOp (OpMap stars els nc noncoro ecb ccb g) =>
       on_spawn k o first noncoro (Nat.eqb nc 0) g (S stars)
-               (fun n => new_req k (MMap stars) 0 false els nc default_w ecb ccb n)
+               (fun n => new_req k (MMap stars) 0 [] els nc default_w ecb ccb n)
   | LOp (OpStart num) =>
       let '(k1, cs) := on_spawn k o first false false None 0
                          (fun n => new_req k MStart num (cf_bad c) [] 0 (cf_w c) (cf_ecb c) (cf_ccb c) n) in
